@@ -137,10 +137,13 @@ def impl(case):
                 for nm in RECLISTS:
                     del getattr(rec, nm)[snap[nm]:]
             finally:
-                kr.lanczos_iteration, kr.arnoldi_iteration = rec._saved['lanczos_iteration'], rec._saved['arnoldi_iteration']
+                for nm in ('lanczos_iteration', 'arnoldi_iteration'):
+                    if nm in rec._saved:
+                        setattr(kr, nm, rec._saved[nm])
     except Exception as e:
         return {'error': type(e).__name__}
     r['norms'] = rec.norms
+    r['hook_lost'] = list(getattr(rec, 'missing', []))
     r['warn'] = any(c == 'RuntimeWarning' for c, _ in rec.warns)
     r['other_warnings'] = sorted({c for c, _ in rec.warns if c != 'RuntimeWarning'})
     if rec.lanczos:
@@ -186,7 +189,7 @@ def prop(case, r):
     d = KC.krylov_dim(A, v)
     sc = np.abs(A).max() if np.abs(A).max() > 0 else 1.0
     it = r.get('lz') or r.get('ar')
-    k = len(it['V'])
+    k = len(it['V']) if it else min(m, d)      # no recorded iteration (hook lost): the clauses on the returned quantities still apply
     if r['other_warnings']:
         msgs.append('unexpected warnings: %s' % r['other_warnings'])
     if k < min(m, d):
@@ -246,10 +249,25 @@ def _full(it):
 def corpus():
     # pre-repair failing inputs of finding F9 (absolute breakdown test of the Lanczos iteration; recorded as K4 before the repair) - run first
     import json, os
-    return json.load(open(os.path.join(os.path.dirname(__file__), 'c15_k4_cases.json')))
+    return (json.load(open(os.path.join(os.path.dirname(__file__), 'c15_k4_cases.json')))
+            + [json.load(open(os.path.join(os.path.dirname(__file__), 'c15_k4b_case.json')))])      # open finding K4 (what F9 left over)
+
+
+def finding_key(case, r, msgs):
+    """open known finding K4 (the part fix F9 could not reach): the breakdown tolerance of lanczos_iteration is 100 n eps max(1, max|A v0|).
+    When the start vector lies (numerically) in the KERNEL of an operator with entries >> 1, max|A v0| is rounding noise, the tolerance
+    stays absolute, the noise of the vanishing residual (about 1e-16 max|A_ij|) passes it and eigh_krylov returns an eigenvalue that is
+    not reachable from the start vector. Identified by: only this clause fails and a recorded loop norm lies in the noise window
+    [tolerance of this call, 1e-6 max|A_ij|)"""
+    if (case['kind'] == 'eigh' and 'error' not in r and len(msgs) == 1 and msgs[0].startswith('Krylov space exhausted but lowest Ritz value')
+            and KC.ambiguous(r['norms'], case['n'], KC.case_scale(case), KC.case_thr(case))):
+        return 'eigh-krylov-breakdown-test-kernel-start-large-operator'
+    return None
 
 
 def coq(case, r):
+    if r.get('hook_lost'):
+        return 'false'       # a name the recorder hooks into is gone from pytenet.krylov: the tie is broken
     if 'error' in r or case.get('mag'):
         return None      # magnitude regimes: implementation-level property only (the tolerances of the Coq-side oracle lookup are absolute)
     n, m = case['n'], case['m']
